@@ -7,7 +7,7 @@ import struct as _struct
 from ..report import Ctx
 from ..srcmodel import AnalysisError
 from ..cfg import cfg_of
-from ..atoms import Atomizer
+from ..atoms import Atomizer, must_facts
 from ..effects import effects_of
 from .. import astutil as A
 
@@ -167,6 +167,34 @@ def run(ctx: Ctx):
         ctx.fail("Avp.from_unpacker:header-reads", fu.loc(),
                  f"Avp.from_unpacker performs {len(uncond)} unconditional unpack_uint reads; "
                  f"two (code, flags+length = 8 bytes) are what makes every decode loop progress")
+
+    # a length field smaller than the header is rejected, not read as "no payload"
+    cons = "Avp.from_unpacker:length-covers-header"
+    ctx.inst(cons)
+    g0 = cfg_of(fu)
+    at0 = Atomizer(model, fu.module, fu.cls)
+    lenvars = set()
+    for n in A.walk_no_nested(fu.node):
+        if isinstance(n, ast.AugAssign) and isinstance(n.op, ast.Sub) and isinstance(n.target, ast.Name):
+            lenvars.add(n.target.id)
+        if isinstance(n, ast.Assign) and isinstance(n.value, ast.BinOp) and isinstance(n.value.op, ast.Sub) \
+                and len(n.targets) == 1 and isinstance(n.targets[0], ast.Name):
+            lenvars.add(n.targets[0].id)
+    rets0 = [n for n in g0.nodes if n.kind == "stmt" and isinstance(n.ast, ast.Return)]
+    if not lenvars:
+        ctx.error("Avp.from_unpacker: no payload-length variable (length minus header) found", rule="C04-R2")
+    for r in rets0:
+        fx = must_facts(g0, at0, r)
+        okl = any((f_[0] == "0" and f_[1] == ">" and f_[2] in lenvars and f_[3] is False)
+                  or (f_[0] in lenvars and f_[1] == ">" and str(f_[2]) in ("-1",) and f_[3] is True)
+                  for f_ in fx)
+        if not okl:
+            ctx.fail(cons, g0.loc(r), f"Avp.from_unpacker returns an AVP without having rejected a "
+                     f"negative payload length ({sorted(lenvars)} = length field minus header size): a "
+                     f"nested AVP declaring fewer bytes than its own header is accepted with an empty "
+                     f"payload and the rest of the group is parsed from the wrong offset, instead of "
+                     f"the documented decode error")
+            break
 
     # ---------------- R3 Unpacker reads are length-enforced ------------------
     ctx.rule("C04-R3", "every advancing Unpacker method returns length-enforced data "
